@@ -132,7 +132,7 @@ func (dc *Defclass) adjoin(b []byte) []byte {
 	b = append(b, dc.name...)
 	for _, n := range dc.children {
 		if n.newline() {
-			b = append(b, indent[:n.left()+1]...)
+			b = newlineIndent(b, n.left())
 		} else {
 			b = append(b, ' ')
 		}
